@@ -1,7 +1,9 @@
 /-
-Model of the WHERE-clause hooks of `bql/semantic/hooks.go`: `whereSubjectClause`, `wherePredicateClause`,
-`whereObjectClause` (each a closure with its own `lastNopToken`, reset when the statement changes),
-`whereInitWorkingClause`, `whereNextWorkingClause`.  Tokens carry what Go's own parsers make of their text.
+Model of the hooks of `bql/semantic/hooks.go` that build a SELECT statement: `whereSubjectClause`,
+`wherePredicateClause`, `whereObjectClause` (each a closure with its own `lastNopToken`, reset when the statement
+changes), `whereInitWorkingClause`, `whereNextWorkingClause`, `orderByBindings` + checker, `varAccumulator`
+(+ the flush of `bindingsGraphChecker`), `inputGraphAccumulator`, `groupByBindings`, `limitCollection`,
+`collectGlobalBounds`.  Tokens carry what Go's own parsers make of their text.
 Which grammar symbol feeds which hook is data (`BW.Generated.HookFacts`, found by probing the hooks of
 `grammar.SemanticBQL()` on every run).
 -/
@@ -13,7 +15,7 @@ namespace BW.Model.Hooks
 /-- Token kinds the WHERE-clause hooks distinguish. -/
 inductive HK
   | binding | node | predicate | predicateBound | literal | as_ | type_ | id_ | at_ | optional | lbracket | rbracket
-  | asc | desc | other
+  | asc | desc | sum | count | distinct | comma | before | after | between | time | limit_ | other
   deriving DecidableEq, Repr
 
 structure BoundP where
@@ -35,6 +37,8 @@ structure HTk where
   part : Option (Bytes × Bytes) := none
   bound : Option BoundP := none
   obj : Option Obj := none
+  time : Option Time := none            -- `time.Parse` of a TIME token
+  pair : Option (Time × Time) := none   -- a `BETWEEN t1, t2` bound (lexed as one PREDICATE_BOUND token)
   deriving Repr
 
 /-- Per-hook closure state: the last token that was not consumed as a value (`lastNopToken`), and the
@@ -163,12 +167,100 @@ def dedupCfg : List (Bytes × Bool) → List (Bytes × Bool) → List (Bytes × 
 def orderCheck (cfg : List (Bytes × Bool)) : Option (List (Bytes × Bool)) :=
   if consistent [] cfg then some (dedupCfg [] cfg) else none
 
+/-! ### The head of a SELECT: projections, FROM graphs, GROUP BY, LIMIT, global time bounds -/
+
+/-- What those hooks build (ORDER BY included). -/
+structure Head where
+  projs : List Proj := []
+  wproj : Proj := { binding := [] }
+  graphs : List Bytes := []
+  groupBy : List Bytes := []
+  order : List (Bytes × Bool) := []
+  limit : Option Int := none
+  lower : Option Time := none
+  upper : Option Time := none
+  deriving Repr
+
+def projIsEmpty (p : Proj) : Bool := p.binding = [] && p.alias = [] && p.op == .none && !p.distinct
+
+/-- `Statement.AddWorkingProjection`. -/
+def Head.flush (h : Head) : Head :=
+  if projIsEmpty h.wproj then h else { h with projs := h.projs ++ [h.wproj], wproj := { binding := [] } }
+
+/-- `varAccumulator` (its `lastNopToken` only ever matters when it is `AS`). -/
+def varStep (h : Head) (last : Option HK) (tk : HTk) : Option (Head × Option HK) :=
+  match tk.k with
+  | .binding =>
+    if h.wproj.binding = [] then some ({ h with wproj := { h.wproj with binding := tk.text } }, last)
+    else if last = some .as_ then some (({ h with wproj := { h.wproj with alias := tk.text } } : Head).flush, none)
+    else none
+  | .as_ => some (h, some .as_)
+  | .sum => some ({ h with wproj := { h.wproj with op := .sum } }, last)
+  | .count => some ({ h with wproj := { h.wproj with op := .count } }, last)
+  | .distinct => some ({ h with wproj := { h.wproj with distinct := true } }, last)
+  | .comma => some (h.flush, last)
+  | _ => some (h, none)
+
+/-- `inputGraphAccumulator`. -/
+def graphStep (h : Head) (tk : HTk) : Option Head :=
+  match tk.k with
+  | .comma => some h
+  | .binding => some { h with graphs := h.graphs ++ [tk.text] }
+  | _ => none
+
+/-- `groupByBindings`. -/
+def groupStep (h : Head) (tk : HTk) : Head :=
+  match tk.k with
+  | .binding => { h with groupBy := h.groupBy ++ [tk.text] }
+  | _ => h
+
+/-- `limitCollection`: a non-negative int64 literal. -/
+def limitStep (h : Head) (tk : HTk) : Option Head :=
+  match tk.k with
+  | .literal =>
+    match tk.obj with
+    | some (.lit (.int n)) => if n < 0 then none else some { h with limit := some n }
+    | _ => none
+  | .limit_ => some h
+  | _ => none
+
+/-- Closure state of `collectGlobalBounds`. -/
+structure BState where
+  cur : Nat := 0
+  op : Option HK := none
+  last : Option HK := none
+  deriving Repr
+
+def BState.enter (b : BState) (stmt : Nat) : BState := if b.cur = stmt then b else { cur := stmt }
+
+/-- `collectGlobalBounds`. -/
+def boundsStep (h : Head) (b : BState) (tk : HTk) : Option (Head × BState) :=
+  match tk.k with
+  | .before | .after | .between =>
+    if b.last.isSome then none else some (h, { b with op := some tk.k, last := some tk.k })
+  | .comma =>
+    if b.last.isNone || b.op ≠ some .between then none else some (h, { b with last := some .comma })
+  | .time =>
+    if b.last.isNone then none else
+    match tk.time with
+    | none => none
+    | some ta =>
+      if b.last = some .comma || b.last = some .before then
+        some ({ h with upper := some ta }, { b with op := none, last := none })
+      else if b.op ≠ some .between then some ({ h with lower := some ta }, { b with op := none, last := none })
+      else some ({ h with lower := some ta }, b)
+  | .predicateBound =>
+    match tk.pair with
+    | some (lo, hi) => some ({ h with lower := some lo, upper := some hi }, b)
+    | none => none
+  | _ => none
+
 /-- Which hook a grammar symbol's tokens go to. -/
-inductive Part | subj | pred | obj | order | none
+inductive Part | subj | pred | obj | order | vars | inGraphs | group | limit | bounds | none
   deriving DecidableEq, Repr
 
 /-- What a clause hook of the grammar does to the pattern under construction. -/
-inductive CHook | next | init | orderCheck | none
+inductive CHook | next | init | orderCheck | flushVars | none
   deriving DecidableEq, Repr
 
 /-- What the parser hands to the hooks, for the WHERE part of a statement. -/
@@ -177,6 +269,7 @@ inductive HEv where
   | next            -- `WhereNextWorkingClauseHook` (start and end of FIRST_CLAUSE / CLAUSES / MORE_CLAUSES)
   | init            -- `WhereInitWorkingClauseHook` (start of WHERE)
   | orderCheck      -- `OrderByBindingsChecker` (end of ORDER_BY)
+  | flushVars       -- `VarBindingsGraphChecker` (end of WHERE): the working projection is flushed
 
 /-- The statement under construction, as far as the WHERE hooks see it, and the three closures. -/
 structure WState where
@@ -186,7 +279,9 @@ structure WState where
   hs : HState := {}
   hp : HState := {}
   ho : HState := {}
-  order : List (Bytes × Bool) := []
+  hv : HState := {}
+  hb : BState := {}
+  head : Head := {}
 
 def emptyClause : Clause := {}
 
@@ -202,8 +297,18 @@ def wstep (w : WState) : HEv → Option WState
   | .init => some { w with working := {} }
   | .next => some { w with pattern := if clauseIsEmpty w.working then w.pattern else w.pattern ++ [w.working], working := {} }
   | .tok .none _ => some w
-  | .tok .order tk => some { w with order := orderStep w.order tk }
-  | .orderCheck => (orderCheck w.order).map fun o => { w with order := o }
+  | .tok .order tk => some { w with head := { w.head with order := orderStep w.head.order tk } }
+  | .orderCheck => (orderCheck w.head.order).map fun o => { w with head := { w.head with order := o } }
+  | .flushVars => some { w with head := w.head.flush }
+  | .tok .inGraphs tk => (graphStep w.head tk).map fun h => { w with head := h }
+  | .tok .group tk => some { w with head := groupStep w.head tk }
+  | .tok .limit tk => (limitStep w.head tk).map fun h => { w with head := h }
+  | .tok .vars tk =>
+    let h := w.hv.enter w.stmt
+    (varStep w.head h.last tk).map fun (hd, l) => { w with head := hd, hv := { h with last := l } }
+  | .tok .bounds tk =>
+    let b := w.hb.enter w.stmt
+    (boundsStep w.head b tk).map fun (hd, b') => { w with head := hd, hb := b' }
   | .tok .subj tk =>
     let h := w.hs.enter w.stmt
     (subjStep w.working h.last tk).map fun (c, l) => { w with working := c, hs := { h with last := l } }
